@@ -295,7 +295,7 @@ func mapSet(m *vh.Item, key uint64, v *vh.Item) {
 // WithWitnessComponents gives an Alonzo+ witness set n datums (key 4), n
 // redeemers (key 5; map form if redeemerMap) and n native scripts (key 1),
 // all distinct and tiny; returns the three containers.
-func WithWitnessComponents(w *vh.Item, n int, redeemerMap bool) (datums, redeemers, scripts *vh.Item) {
+func WithWitnessComponents(w *vh.Item, n int, redeemerMap bool, tag258 ...bool) (datums, redeemers, scripts *vh.Item) {
 	datums = &vh.Item{K: vh.KArr, F: vh.MinForm(uint64(n))}
 	scripts = &vh.Item{K: vh.KArr, F: vh.MinForm(uint64(n))}
 	if redeemerMap {
@@ -315,9 +315,14 @@ func WithWitnessComponents(w *vh.Item, n int, redeemerMap bool) (datums, redeeme
 			redeemers.Xs = append(redeemers.Xs, vh.A(vh.U(0), vh.U(uint64(i)), vh.U(uint64(i)), ex))
 		}
 	}
-	mapSet(w, 4, datums)
+	if len(tag258) > 0 && tag258[0] { // Conway set encoding: 258([...])
+		mapSet(w, 4, vh.TagOf(258, datums))
+		mapSet(w, 1, vh.TagOf(258, scripts))
+	} else {
+		mapSet(w, 4, datums)
+		mapSet(w, 1, scripts)
+	}
 	mapSet(w, 5, redeemers)
-	mapSet(w, 1, scripts)
 	return
 }
 
@@ -405,6 +410,14 @@ func BoundaryBlocks(f Fixture, level, count, mode int) []Boundary {
 		SetForm(r, mode)
 		SetForm(s, mode)
 		out = append(out, Boundary{name("witness-components"), f.Type, b, count <= 30})
+		if f.Type >= 7 {
+			b2 := Subset(f.Root, []int{SmallestTx(f.Root)})
+			d, r, s := WithWitnessComponents(b2.Xs[2].Xs[0], count, mode%2 == 0, true)
+			SetForm(d, mode)
+			SetForm(r, mode)
+			SetForm(s, mode)
+			out = append(out, Boundary{name("witness-components-tag258"), f.Type, b2, false})
+		}
 	}
 	return out
 }
